@@ -47,7 +47,7 @@ class MWorld:
         self.addr = Numbering(10)       # address classes of temporaries
         for o, a, _ in KNOWN_OBJS:
             self.addr.m[id(o)] = a
-        self.temp_uid = 5000
+        self.nmemmap = 0
 
     def U(self, obj):
         self.uid_pin.setdefault(id(obj), obj)
@@ -289,7 +289,8 @@ class MRunner:
                     osx = [Sym("del"), W.path_sx(p + (key,))]
                     n.del_(key)
             elif k == "promote":
-                cands = [(q, v) for q, v in walk_leaves(td) if is_nt(v) and not any(x.startswith("#") for x in q)]
+                # only NonTensorData -> NonTensorStack promotion is modelled (a NonTensorStack is a lazy stack with a lock of its own)
+                cands = [(q, v) for q, v in walk_leaves(td) if isinstance(v, NonTensorData) and not any(x.startswith("#") for x in q)]
                 if not cands:
                     return None
                 q, v = cands[op["leaf"] % len(cands)]
@@ -318,7 +319,10 @@ class MRunner:
             elif k == "memmap":
                 if any(is_lazy(m) for _, m in walk_nodes(n)):
                     return None
-                base = 100000 * (1 + len(self.ops_sx))
+                if W.nmemmap >= 3:
+                    return None
+                W.nmemmap += 1
+                base = max(W.uid.next, W.stor.next) + 1      # ids stay small: the model's ids are unary nat
                 old = {q: v for q, v in walk_leaves(n) if isinstance(v, torch.Tensor)}
                 oldenc = {q: W.leaf_sx(v) for q, v in old.items()}
                 osx = [Sym("memmap"), W.path_sx(p), base]
@@ -332,6 +336,8 @@ class MRunner:
                         W.uid_pin[id(v)] = v
                         W.uid.m[id(v)] = base + oldenc[q][0]
                         W.stor.m[v.untyped_storage().data_ptr() if v.numel() else ("empty", id(v))] = base + oldenc[q][2]
+                W.uid.next = max(W.uid.next, 2 * base + 1)
+                W.stor.next = max(W.stor.next, 2 * base + 1)
             elif k == "names":
                 if n.batch_dims == 0:
                     return None
@@ -385,8 +391,9 @@ class MRunner:
                         held.append(f)
                     temp = cand if cand is not None else held[0]
                     del held, cand
-                    W.temp_uid += 1
-                    k_sx.append([kk, [Sym("obj"), W.addr(id(temp)), W.temp_uid, sem]])
+                    tuid = W.uid.next       # a fresh identity: never the number of an earlier object at the same address
+                    W.uid.next += 1
+                    k_sx.append([kk, [Sym("obj"), W.addr(id(temp)), tuid, sem]])
                     k_py[kk] = temp
                 elif a[0] == "keyseq-all":
                     keys = sorted(n.keys(True, True), key=str) if not n.is_locked else None
